@@ -22,9 +22,9 @@ RULE = ('cases: every non-wrapping grid shape with extents 0..N per axis (plus L
         'Non-trivial query: the ball is clipped by the grid on at least one side AND contains >= 2 cells; distinct by (shape, centre, '
         'radius, kind).')
 ASSUMPTIONS = ['exhaustive only for extents <= N', 'radius >= 0, centre inside the grid, wrap_env=False (as the property states)']
-FLOORS = {'quick': {'queries': 56000, 'moore': 28000, 'neumann': 28000, 'center_as_id': 14000, 'center_as_tuple': 14000,
+FLOORS = {'quick': {'radius_numpy_int': 4790, 'keyword_spelling': 9580, 'flag_int': 4790, 'flag_numpy_bool': 4790, 'queries': 56000, 'moore': 28000, 'neumann': 28000, 'center_as_id': 14000, 'center_as_tuple': 14000,
                     'center_as_position': 14000, 'center_fractional': 14000, 'generic_entry': 28000, 'clipped_queries': 10000,
-                    'shapes': 36, 'big_shapes': 3, 'big_queries': 600, 'big_balls_1024_plus': 40, 'non_cubic_shapes': 30, 'reach:Environments.DiscreteWorld.get_moore_neighbours': 28000,
+                    'shapes': 36, 'big_shapes': 2, 'big_queries': 600, 'big_balls_1024_plus': 40, 'non_cubic_shapes': 30, 'reach:Environments.DiscreteWorld.get_moore_neighbours': 28000,
                     'reach:Environments.DiscreteWorld.get_neumann_neighbours': 28000, 'reach:Environments.DiscreteWorld.get_neighbours': 28000},
           'thorough': {'queries': 1000000, 'shapes': 180}}
 EXHAUSTIVE = {'quick': 'all shapes with extents 0..3, all centres, radii 0..max extent+1, all 64 query variants',
@@ -41,10 +41,51 @@ def shapes(n):
             yield {'cls': 'GridWorld', 'ext': [w, h, 0]}
 
 
+_SPELL = [0]
+
+
+def query(ctx, env, cv, r, incl, ret, mode, generic):
+    """One neighbourhood query through one of its spellings: positional / keywords / defaults for default-valued arguments, the
+    centre flag as bool / numpy.bool_ / 0-1, the radius as int / numpy integer."""
+    import numpy as np
+    _SPELL[0] += 1
+    k = _SPELL[0] % 8
+    flag = incl
+    rad = r
+    if k == 1:
+        flag = np.bool_(incl)
+        ctx.count('flag_numpy_bool')
+    elif k == 2:
+        flag = int(incl)
+        ctx.count('flag_int')
+    elif k == 3:
+        rad = np.int64(r)
+        ctx.count('radius_numpy_int')
+    if k in (4, 5):
+        ctx.count('keyword_spelling')
+        kw = dict(radius=rad, incl_center=flag, ret_type=ret)
+        if k == 5:          # arguments equal to their documented defaults are left out
+            if r == 1:
+                del kw['radius']
+            if incl is False:
+                del kw['incl_center']
+            if ret is int:
+                del kw['ret_type']
+        if generic:
+            if not (k == 5 and mode == 'moore'):
+                kw['mode'] = mode
+            return env.get_neighbours(cv, **kw)
+        return (env.get_moore_neighbours if mode == 'moore' else env.get_neumann_neighbours)(cv, **kw)
+    if generic:
+        return env.get_neighbours(cv, rad, flag, ret, mode)
+    return (env.get_moore_neighbours if mode == 'moore' else env.get_neumann_neighbours)(cv, rad, flag, ret)
+
+
 def run_case(ctx, case):
     import ECAgent.Core as core
     import ECAgent.Environments as envs
     m = core.Model()
+    _SPELL[0] = 0           # spellings are a function of the position within the case (replayable)
     w, h, d = case['ext']
     if case['cls'] == 'DiscreteWorld':
         env = envs.DiscreteWorld(m, w, h, d)
@@ -80,13 +121,9 @@ def run_case(ctx, case):
                     for rep, cv in centres:
                         for ret, exp in ((int, exp_i), (tuple, exp_t)):
                             for generic in (False, True):
+                                got = query(ctx, env, cv, r, incl, ret, mode, generic)
                                 if generic:
-                                    got = env.get_neighbours(cv, r, incl, ret, mode)
                                     ctx.count('generic_entry')
-                                elif mode == 'moore':
-                                    got = env.get_moore_neighbours(cv, r, incl, ret)
-                                else:
-                                    got = env.get_neumann_neighbours(cv, r, incl, ret)
                                 ctx.ev()
                                 if got != exp:
                                     raise CaseViolation(
@@ -122,6 +159,7 @@ def case_big(ctx, case):
     import ECAgent.Environments as envs
     rng = _r.Random(str(case))
     m = core.Model()
+    _SPELL[0] = 0
     w, h, d = case['ext']
     env = {'DiscreteWorld': lambda: envs.DiscreteWorld(m, w, h, d), 'LineWorld': lambda: envs.LineWorld(m, w),
            'GridWorld': lambda: envs.GridWorld(m, w, h)}[case['cls']]()
@@ -143,12 +181,7 @@ def case_big(ctx, case):
                 exp_i = [index[p] for p in exp_t]
                 pc.x, pc.y, pc.z = c[0] + 0.5, c[1] + 0.25, c[2]
                 for cv, ret, exp, generic in ((index[c], int, exp_i, False), (c, tuple, exp_t, True), (pc, int, exp_i, True), (c, int, exp_i, False)):
-                    if generic:
-                        got = env.get_neighbours(cv, r, incl, ret, mode)
-                    elif mode == 'moore':
-                        got = env.get_moore_neighbours(cv, r, incl, ret)
-                    else:
-                        got = env.get_neumann_neighbours(cv, r, incl, ret)
+                    got = query(ctx, env, cv, r, incl, ret, mode, generic)
                     ctx.ev()
                     ctx.count('big_queries')
                     if got != exp:
